@@ -38,6 +38,7 @@ import (
 	"time"
 
 	"git.torproject.org/pluggable-transports/snowflake.git/v2/common/util"
+	"github.com/pion/ice/v2"
 	"github.com/pion/sdp/v3"
 	"github.com/pion/webrtc/v3"
 	"verif/vlib"
@@ -224,6 +225,33 @@ func parseCandidateStrict(v string) (candFields, bool) {
 	return cf, true
 }
 
+// lenientHostCandidateClass: the reference class of the address when pion/ice
+// (the consumer of candidates in client and proxy) parses the value as a host
+// candidate whose address is a literal, un-zoned local address; "" otherwise.
+func lenientHostCandidateClass(val string) (cl string) {
+	defer func() {
+		if recover() != nil {
+			cl = ""
+		}
+	}()
+	c, err := ice.UnmarshalCandidate(val)
+	if err != nil || c == nil || c.Type() != ice.CandidateTypeHost {
+		return ""
+	}
+	a, err := netip.ParseAddr(c.Address())
+	if err != nil || a.Zone() != "" {
+		return ""
+	}
+	k, mapped := refClass(a)
+	if k == "" {
+		return ""
+	}
+	if mapped {
+		k += ":ipv4-mapped"
+	}
+	return k
+}
+
 func classifyLine(line string, inMedia bool) lineInfo {
 	if !strings.HasPrefix(line, "a=") {
 		return lineInfo{expKeep, "field"}
@@ -245,6 +273,13 @@ func classifyLine(line string, inMedia bool) lineInfo {
 	cf, ok := parseCandidateStrict(val)
 	if !ok {
 		if hasLocalToken(val) {
+			// Not the RFC's form - but if the ICE implementation that every snowflake
+			// component uses to consume descriptions accepts the line as a host
+			// candidate with a literal, un-zoned local address, then the description
+			// does carry a usable host candidate with that address: it must go.
+			if cl := lenientHostCandidateClass(val); cl != "" {
+				return lineInfo{expStrip, "lenient-form:" + cl}
+			}
 			return lineInfo{expEither, "malformed-candidate-with-local-token"}
 		}
 		return lineInfo{expKeep, "malformed-candidate"}
